@@ -38,3 +38,44 @@ package http
 //@   modifies mapof(h.beacons)
 //@   ensures [C19:http-default-alias] has(h.beacons, "default") && h.beacons["default"] == bh
 //@   ensures [C19:http-default-leaves-others] forall k string :: k != "default" ==> has(h.beacons, k) == old(has(h.beacons, k)) && h.beacons[k] == old(h.beacons[k])
+
+// ---- C14: a client that hangs up cannot crash the watch loop --------------------------------------------------------
+// A waiter that gives up removes its channel from bh.pending and closes it while holding bh.pendingLk (getRand), so a
+// send to a pending channel is safe exactly while the lock is held.
+//@ iface (github.com/drand/drand/v2/common/client.Watcher).Watch(c, ctx) (ch)
+//@   trusted client library: opens a result stream; touches no state of the handler
+//@   modifies nothing
+//@ iface (github.com/drand/drand/v2/common/client.Client).Watch(c, ctx) (ch)
+//@   trusted client library: opens a result stream; touches no state of the handler
+//@   modifies nothing
+//@ iface (github.com/drand/drand/v2/common/client.Result).GetRound(r) (n)
+//@   trusted accessor
+//@   modifies nothing
+//@ extern github.com/nikkolasg/hexjson.Marshal(v) (b, err)
+//@   trusted JSON encoding
+//@   modifies nothing
+
+//@ func (*DrandHandler).watchWithTimeout(h, bh)
+//@   props C14
+//@   flags lockcheck
+//@   requires bh != nil
+//@   loop 0: invariant [C14:watch-loop-holds-no-lock-between-rounds] nowlocks() && norlocks()
+//@   loop 1: invariant [C14:waiters-are-notified-while-the-pending-lock-is-held] held(bh.pendingLk)
+//@   call send#2: assert [C14:waiters-are-notified-while-the-pending-lock-is-held] held(bh.pendingLk)
+
+// ---- C01 (HTTP): a request waits for the watch loop only for the round the loop delivers next -----------------------
+// Monitor invariant of bh.pendingLk: every channel in bh.pending belongs to a request for round bh.latestRound+1; the
+// watch loop hands the beacon of that round to all of them and empties the list before latestRound changes.
+//@ iface (github.com/drand/drand/v2/common/client.Client).Get(c, ctx, round) (r, err)
+//@   trusted client library
+//@   modifies nothing
+//@ extern (*sync.Once).Do(o, f)
+//@   trusted runs the start function at most once; it touches neither the pending list nor latestRound (h.start only spawns the watch goroutine)
+//@   modifies nothing
+
+//@ func (*DrandHandler).getRand(h, ctx, chainHash, info, round) (b, err)
+//@   props C01 C14
+//@   flags lockcheck interleaved
+//@   rely bh.latestRound, bh.pending
+//@   requires h.log != nil && info != nil && common.validPeriod(info.Period) && common.validGenesis(info.GenesisTime)
+//@   call append#0: assert [C01:a-request-joins-the-waiters-only-for-the-round-delivered-next] held(bh.pendingLk) && bh.latestRound != 0 && (bh.latestRound + 1 == round || (bh.latestRound == 18446744073709551615 && round == 0))
